@@ -14,6 +14,7 @@ import (
 	"encoding/pem"
 	"errors"
 	"fmt"
+	"io"
 	"math/rand"
 	"net/http"
 	"net/http/httptest"
@@ -196,6 +197,77 @@ type c16Tok struct {
 	Slot     string `json:"slot"`
 	Age      int64  `json:"age"`
 	By       string `json:"by"` // minted: this | otherKey | otherURL | sibPath | sibQuery | sibSlash | sibCase
+	// the shape of the request the token is presented in (GET without further headers everywhere except in the
+	// family RequestShapes); slot "none" = the request carries no session cookie at all
+	Req c16Shape `json:"req"`
+}
+
+// c16Shape is the request shape of a presentation: method x header set (none | preflight = Access-Control-Request-Method
+// + Origin | xrw = X-Requested-With).
+type c16Shape struct {
+	Method string `json:"method"`
+	Hdr    string `json:"hdr"`
+}
+
+func (s c16Shape) plain() bool {
+	return (s.Method == "GET" || s.Method == "") && (s.Hdr == "none" || s.Hdr == "")
+}
+func (s c16Shape) String() string {
+	if s.Method == "" {
+		return "GET+none"
+	}
+	return s.Method + "+" + s.Hdr
+}
+
+var c16Methods = []string{"GET", "HEAD", "POST", "PUT", "DELETE", "OPTIONS"}
+var c16HdrSets = []string{"none", "preflight", "xrw"}
+
+// c16ShapeHeaders concretises a header-set class (the concrete values are chosen by the seed).
+func c16ShapeHeaders(s c16Shape, rng *rand.Rand) (map[string]string, error) {
+	pick := func(xs ...string) string {
+		if rng == nil {
+			return xs[0]
+		}
+		return xs[rng.Intn(len(xs))]
+	}
+	okM := false
+	for _, m := range c16Methods {
+		okM = okM || m == s.Method
+	}
+	if !okM && s.Method != "" {
+		return nil, fmt.Errorf("unknown request method class %q", s.Method)
+	}
+	switch s.Hdr {
+	case "", "none":
+		return map[string]string{}, nil
+	case "preflight":
+		h := map[string]string{"Access-Control-Request-Method": pick("GET", "POST", "PUT", "DELETE", "PATCH"),
+			"Origin": pick("https://app.example.org", "https://evil.example", "null", "http://localhost:3000")}
+		if pick("", "x") != "" {
+			h["Access-Control-Request-Headers"] = pick("content-type", "authorization, x-requested-with")
+		}
+		return h, nil
+	case "xrw":
+		return map[string]string{"X-Requested-With": pick("XMLHttpRequest", "fetch")}, nil
+	}
+	return nil, fmt.Errorf("unknown request header class %q", s.Hdr)
+}
+
+func c16ShapeText(v *c16Vec, hdrs map[string]string) string {
+	if v.In.Req.plain() {
+		return ""
+	}
+	var ks []string
+	for k, x := range hdrs {
+		ks = append(ks, k+": "+x)
+	}
+	sort.Strings(ks)
+	what := ""
+	if v.In.Req.Method == "OPTIONS" && v.In.Req.Hdr == "preflight" {
+		what = " (the shape of a CORS preflight)"
+	}
+	return fmt.Sprintf(" - the request is %s with headers [%s]%s; the statement makes no exception for any request method or header",
+		v.In.Req.Method, strings.Join(ks, "; "), what)
 }
 
 func c16IsSibling(by string) bool { return strings.HasPrefix(by, "sib") }
@@ -443,6 +515,9 @@ func c16TokKey(v *c16Vec) string {
 	}
 	if t.Slot != "named" {
 		add("slot", t.Slot)
+	}
+	if !t.Req.plain() {
+		add("req", t.Req.String())
 	}
 	return strings.Join(p, ":")
 }
@@ -1159,9 +1234,17 @@ func c16CookieHeader(name, value string, rng *rand.Rand) string {
 	return strings.Join(cs, "; ")
 }
 
-// c16Request runs one request carrying the cookie header through wrap(recording handler).
+// c16Request runs one GET request carrying the cookie header through wrap(recording handler).
 func c16Request(d *c16Depl, cookieHeader string, firstOf []string, wrap func(http.Handler) http.Handler) c16Obs {
+	return c16RequestShaped(d, "GET", nil, cookieHeader, firstOf, wrap)
+}
+
+// c16RequestShaped: the same with the request's method and further headers given.
+func c16RequestShaped(d *c16Depl, method string, hdrs map[string]string, cookieHeader string, firstOf []string, wrap func(http.Handler) http.Handler) c16Obs {
 	var o c16Obs
+	if method == "" {
+		method = "GET"
+	}
 	h := http.HandlerFunc(func(w http.ResponseWriter, r *http.Request) {
 		o.Ran = true
 		s := samlsp.SessionFromContext(r.Context())
@@ -1181,7 +1264,17 @@ func c16Request(d *c16Depl, cookieHeader string, firstOf []string, wrap func(htt
 		w.WriteHeader(http.StatusOK)
 	})
 	rec := httptest.NewRecorder()
-	req := httptest.NewRequest("GET", d.at("/private/page"), nil)
+	var body io.Reader
+	if method == "POST" || method == "PUT" {
+		body = strings.NewReader("k=v")
+	}
+	req := httptest.NewRequest(method, d.at("/private/page"), body)
+	if body != nil {
+		req.Header.Set("Content-Type", "application/x-www-form-urlencoded")
+	}
+	for k, x := range hdrs {
+		req.Header.Set(k, x)
+	}
 	if cookieHeader != "" {
 		req.Header.Set("Cookie", cookieHeader)
 	}
@@ -1231,6 +1324,7 @@ func c16WhyText(why map[string]bool) string {
 		"tooOld":   "issued by this SP's CreateSession longer ago than the configured session lifetime (the session codec's MaxAge)",
 		"otherAud": "audience different or absent", "otherIss": "issuer different or absent",
 		"altered": "truncated or altered token string",
+		"noToken": "none at all: the request carries no session cookie",
 	}
 	var out []string
 	for k, v := range why {
